@@ -854,6 +854,17 @@ class PathCtx(object):
             self.products[key] = (p, a, b)
         return self.products[key][0]
 
+    def exact_product_terms(self):
+        """Constraints tying every abstracted product to the real product (refinement)."""
+        out = []
+        for (p, a, b) in self.products.values():
+            if z3.is_bv(p.t):
+                w = p.t.size()
+                out.append(p.t == _fit(a.t, w) * _fit(b.t, w))
+            else:
+                out.append(p.t == a.t * b.t)
+        return out
+
     # -- path condition ---------------------------------------------------------------------
 
     def add(self, t, keep_model=False):
